@@ -364,10 +364,11 @@ def read_headers(sock: socket.socket) -> tuple:
         trace(line)
         if status is None:
             status_info = line.split(" ", 2)
-            try:
-                status = int(status_info[1])
-            except (IndexError, ValueError):
+            code = status_info[1] if len(status_info) > 1 else ""
+            # three digits: int() would also take '+101', '1_01', '0101' or non-ASCII digits
+            if not (len(code) == 3 and code.isascii() and code.isdigit()):
                 raise WebSocketException(f"Invalid status line: {line!r}")
+            status = int(code)
             if len(status_info) > 2:
                 status_message = status_info[2]
         else:
